@@ -22,6 +22,7 @@ POOL = [
     "''", "'a'", "'abc'", "'1'", "'['", "'+'", "'{1+}'", "'{x#q}'", "3", "[3, 1, 2]", "date('20200101')", "//a//", "[]", "[1, 'a']", "[[1, 2], [3, 4]]", "<<>>", "<<1, 2>>",
     "<<<>>>", "<<<'a' => 1>>>", "<*a=1*>", "fn(x) x", "str_output()", "str_input('x')",
     "do def pb = <*x = 1*>; def pc = <*_proto_ = pb*>; pb->_proto_ = pc; <*_proto_ = pb, y = 2*> end",      # prototype chain running into a cycle past the start
+    "'inf'", "'nan'", "'1e400'", "1" + "0" * 308 + ".0",      # texts and a literal at the edge of the float range
     "'123456789'", "'20200101'", "<*_str_ = fn(self) 'obj', a = 1*>", "<*_str_ = 5*>", "<*_proto_ = 5, a = 1*>", "fn(a, b) 'x'",
 ]
 HUGE = "1180591620717411303424"
@@ -118,6 +119,8 @@ def run_case(I, errs, call, args, is_mutator):
             # representation invariant of the number classes (C13: later operations rely on it)
             if (res.isDecimal() and type(res.value) is not float) or (res.isInt() and type(res.value) is not int):
                 out = ("C13", f"{res.type()} result holding a host {type(res.value).__name__}: {res}")
+            elif res.isDecimal() and (res.value != res.value or res.value in (float("inf"), float("-inf"))):
+                out = ("C13", f"a decimal that is not a finite number: {res} (later operations on it raise host exceptions)")
         finally:
             signal.setitimer(signal.ITIMER_REAL, 0)
     except errs.CklRuntimeError as e:
